@@ -54,7 +54,7 @@ func init() {
 		},
 		Run: run,
 		Floors: func(t string) map[string]int64 {
-			return map[string]int64{"pt.on_vertex": 1000, "pt.on_closing_segment_of_unclosed_ring": 200, "pt.on_horizontal_edge": 500, "pt.ray_through_vertex": 1000,
+			return map[string]int64{"history.polygon_edited_in_place_between_queries": 1000, "pt.on_vertex": 1000, "pt.on_closing_segment_of_unclosed_ring": 200, "pt.on_horizontal_edge": 500, "pt.ray_through_vertex": 1000,
 				"pt.inside_two_members": 100, "answer.inside": 1000, "answer.outside": 1000, "answer.onedge": 1000, "recv.outside": 200, "recv.not_outside": 200, "recv.self.outside": 100, "storage.rings_share_one_backing_array": 1000, "recv.self.not_outside": 100, "float.judged": 1000, "float.ray_grazes_one_ulp_edge": 1000, "float.extreme_scale": 300, "lattice.points_in_the_interior_of_an_edge": 20000, "lattice.figures_with_lattice_points_on_edges": 3000, "float.scaled_to_the_top_of_the_range": 150, "float.figure_around_the_origin": 300, "arg.*Bounds": 100, "far_vertex.rings": 4000, "far_vertex.points_judged": 100000}
 		},
 		Exhaustive: func(t string) bool { return false },
